@@ -1,0 +1,115 @@
+//! Verification hook for property C17 (cargo feature `verif-hooks`, off by default).
+//! Read-only: while enabled, records what every iteration of `UnixTerminal::poll` observed (time-out
+//! arithmetic, what `select` reported, tty write / read results, signals seen, bytes pending in the
+//! waker pipe, events pushed) and the steps of `UnixTerminal::dispose`; exposes a few private fields.
+//! Nothing is recorded unless `enable(true)` was called.
+use std::sync::Mutex;
+use std::sync::atomic::{AtomicBool, Ordering};
+use std::time::Duration;
+
+static ENABLED: AtomicBool = AtomicBool::new(false);
+static TRACE: Mutex<Vec<Rec>> = Mutex::new(Vec::new());
+
+#[derive(Debug, Clone, PartialEq, Eq)]
+pub enum Rec {
+    /// entry of `poll`: time-out in nanoseconds, `write_queue.len()`, `events_queue.len()`
+    PollStart { timeout_ns: Option<u128>, queued: usize, events: usize },
+    /// top of a loop iteration after the time-out arithmetic: delay handed to `select`
+    Iter { delay_ns: Option<u128>, first_loop: bool },
+    /// the loop left through `break` (deadline passed)
+    Break,
+    /// `select` succeeded: what it reported
+    Select { waker: bool, signal: bool, tty_read: bool, tty_write: bool },
+    /// `select` failed: `retry` = Interrupted / WouldBlock (the loop continues)
+    SelectErr { retry: bool },
+    /// a `write` to the tty: bytes offered, bytes accepted (0 = EAGAIN / EINTR)
+    TtyWrite { offered: usize, accepted: usize },
+    /// one signal taken from `pending()`
+    Signal(i32),
+    /// bytes buffered in the waker pipe just before it is read (FIONREAD)
+    WakerPending(u64),
+    /// the read of the waker pipe returned a non-zero count
+    WakerNonZero,
+    /// result of the tty read (after `guard_io`): the bytes
+    TtyRead(Vec<u8>),
+    /// an event was appended to `events_queue` (Debug rendering)
+    Pushed(String),
+    /// bytes appended to `write_queue` by the loop itself (size query after SIGWINCH)
+    Queued(usize),
+    /// steps of `dispose`
+    Dispose { step: &'static str, queued: usize, events: usize },
+    /// `tcsetattr(saved)` is about to be called with these settings
+    Restore(Vec<u32>),
+}
+
+pub fn enable(on: bool) {
+    ENABLED.store(on, Ordering::SeqCst);
+}
+
+pub(super) fn rec(f: impl FnOnce() -> Rec) {
+    if ENABLED.load(Ordering::Relaxed) {
+        let r = f();
+        TRACE
+            .lock()
+            .unwrap_or_else(|err| err.into_inner())
+            .push(r);
+    }
+}
+
+pub(super) fn ns(d: Option<Duration>) -> Option<u128> {
+    d.map(|d| d.as_nanos())
+}
+
+/// bytes buffered in a descriptor (FIONREAD); `u64::MAX` when the query fails
+pub(super) fn pending(fd: impl std::os::fd::AsFd) -> u64 {
+    rustix::io::ioctl_fionread(fd).unwrap_or(u64::MAX)
+}
+
+/// all records since the last call, in order
+pub fn take_trace() -> Vec<Rec> {
+    std::mem::take(&mut *TRACE.lock().unwrap_or_else(|err| err.into_inner()))
+}
+
+/// canonical words of a termios value: the four mode words, line discipline, 17 special codes
+pub fn termios_words(t: &rustix::termios::Termios) -> Vec<u32> {
+    use rustix::termios::SpecialCodeIndex as I;
+    let mut w = vec![
+        t.input_modes.bits() as u32,
+        t.output_modes.bits() as u32,
+        t.control_modes.bits() as u32,
+        t.local_modes.bits() as u32,
+        t.line_discipline as u32,
+    ];
+    for i in [
+        I::VINTR, I::VQUIT, I::VERASE, I::VKILL, I::VEOF, I::VTIME, I::VMIN, I::VSWTC, I::VSTART,
+        I::VSTOP, I::VSUSP, I::VEOL, I::VREPRINT, I::VDISCARD, I::VWERASE, I::VLNEXT, I::VEOL2,
+    ] {
+        w.push(t.special_codes[i] as u32);
+    }
+    w
+}
+
+/// the settings saved by `new_from_fd`
+pub fn saved_termios(term: &super::UnixTerminal) -> Vec<u32> {
+    termios_words(&term.termios_saved)
+}
+
+/// Debug rendering of the events waiting in `events_queue`, front first
+pub fn events_queue(term: &super::UnixTerminal) -> Vec<String> {
+    term.events_queue.iter().map(|e| format!("{e:?}")).collect()
+}
+
+/// is the terminal size taken from escape sequences (`size` is `Some`) rather than ioctl
+pub fn size_from_escape(term: &super::UnixTerminal) -> bool {
+    term.size.is_some()
+}
+
+/// `write_queue.len()` and `write_queue.chunks_count()`
+pub fn queue(term: &super::UnixTerminal) -> (usize, usize) {
+    (term.write_queue.len(), term.write_queue.chunks_count())
+}
+
+/// bytes buffered in the waker pipe right now
+pub fn waker_pending(term: &super::UnixTerminal) -> u64 {
+    pending(&term.waker_read)
+}
